@@ -273,11 +273,17 @@ def check_case(case):
     if "azimuth" in spec2:
         spec2["azimuth"] = spec2["azimuth"] + 17.0
     try:
-        res2, settings2 = _process(hv, arrays, dt, spec2, allow=(ValueError,) if sg else ())
+        res2, settings2 = _process(hv, arrays, dt, spec2, allow=(ValueError,))
         ref2, amb2 = _reference(arrays, dt, spec2, settings2.fft_settings["n"])
         pairs2 = list(zip(_curves(res2, m), ref2))
-    except Refusal:
+    except Refusal as r2:
         pairs2, amb2 = [], None
+        if not sg:
+            # legitimate only where the ratio itself is undefined (0/0: an exactly periodic window without taper and padding)
+            ref2, _ = _reference(arrays, dt, spec2, nfft)
+            if all(np.all(np.isfinite(r)) for _, r in ref2):
+                raise Violation(f"{m}: second call on the same windows with tukey width {case['width2']:.3g} was refused ({r2.exc}) although the spectral ratio is finite everywhere")
+            labels.append("second-call-ratio-undefined-refused")
     for (_, g), (_, r) in pairs2:
         sel = ~amb2 & np.isfinite(r).all(axis=0)
         if not close(g[:, sel], r[:, sel], rtol=1e-9, atol=0):
